@@ -32,6 +32,7 @@ var (
 	sitesOut = flag.String("sites", "", "write site table (json) here")
 	mapsOnly = flag.String("mapsonly", "", "comma separated files that only get their map ranges rewritten (no yields)")
 	reimport = flag.String("reimport", "", "comma separated old=new import path rewrites applied to every processed file")
+	lockset  = flag.String("lockset", "", "comma separated files in which accesses to mutex-guarded struct fields are reported to the simulator (lock discipline)")
 	pools    = flag.Bool("pools", false, "sync.Pool becomes xsim.Pool (a free list the simulator owns and can reset)")
 	skipInit = flag.Bool("skipinit", false, "do not instrument func init (goroutines started at program initialisation live outside every run)")
 )
@@ -106,6 +107,170 @@ func markGoroutineBody(fl *ast.FuncLit) {
 	fl.Body.List = append([]ast.Stmt{goExitDefer()}, fl.Body.List...)
 }
 
+// ---------------------------------------------------------------------------
+// Lock discipline (-lockset). In a struct that has a field of type sync.Mutex / sync.RWMutex, the map-typed fields
+// and the fields declared after the mutex are taken to be guarded by it (the convention of storage/memory and
+// storage/memoization). Before every statement whose own expressions (not its nested blocks) select such a field
+// of a plain identifier x, `x.<mutex>.Touch(write, site)` is inserted; the simulator checks at run time whether
+// the calling task holds that lock in the required mode.
+
+var (
+	guardedBy = map[string]string{} // field name -> mutex field name (per file, field names are unique enough here)
+	locksetOn bool
+)
+
+func collectGuarded(f *ast.File) {
+	guardedBy = map[string]string{}
+	ast.Inspect(f, func(n ast.Node) bool {
+		st, ok := n.(*ast.StructType)
+		if !ok {
+			return true
+		}
+		mu := ""
+		after := false
+		var cand []string
+		for _, fld := range st.Fields.List {
+			isMu := false
+			if se, ok := fld.Type.(*ast.SelectorExpr); ok {
+				if id, ok := se.X.(*ast.Ident); ok && (id.Name == "sync" || id.Name == "xsim") && (se.Sel.Name == "Mutex" || se.Sel.Name == "RWMutex") && len(fld.Names) == 1 {
+					mu, isMu, after = fld.Names[0].Name, true, true
+				}
+			}
+			if isMu {
+				continue
+			}
+			_, isMap := fld.Type.(*ast.MapType)
+			for _, nm := range fld.Names {
+				if isMap || after {
+					cand = append(cand, nm.Name)
+				}
+			}
+		}
+		if mu != "" {
+			for _, c := range cand {
+				guardedBy[c] = mu
+			}
+		}
+		return true
+	})
+}
+
+// ownExprs returns the expressions a statement evaluates itself (its nested blocks are other statement lists).
+func ownExprs(s ast.Stmt) (exprs []ast.Expr, lhs []ast.Expr) {
+	switch v := s.(type) {
+	case *ast.AssignStmt:
+		return v.Rhs, v.Lhs
+	case *ast.ExprStmt:
+		return []ast.Expr{v.X}, nil
+	case *ast.IncDecStmt:
+		return nil, []ast.Expr{v.X}
+	case *ast.ReturnStmt:
+		return v.Results, nil
+	case *ast.IfStmt:
+		var e, l []ast.Expr
+		if v.Init != nil {
+			e, l = ownExprs(v.Init)
+		}
+		return append(e, v.Cond), l
+	case *ast.ForStmt:
+		var e, l []ast.Expr
+		if v.Init != nil {
+			e, l = ownExprs(v.Init)
+		}
+		if v.Cond != nil {
+			e = append(e, v.Cond)
+		}
+		return e, l
+	case *ast.RangeStmt:
+		return []ast.Expr{v.X}, nil
+	case *ast.SwitchStmt:
+		var e, l []ast.Expr
+		if v.Init != nil {
+			e, l = ownExprs(v.Init)
+		}
+		if v.Tag != nil {
+			e = append(e, v.Tag)
+		}
+		return e, l
+	case *ast.SendStmt:
+		return []ast.Expr{v.Chan, v.Value}, nil
+	case *ast.DeferStmt:
+		return v.Call.Args, nil
+	}
+	return nil, nil
+}
+
+// touches lists the (receiver identifier, mutex field, write) triples a statement needs.
+func touches(s ast.Stmt) (out [][3]string) {
+	if !locksetOn || len(guardedBy) == 0 {
+		return nil
+	}
+	exprs, lhs := ownExprs(s)
+	seen := map[string]bool{}
+	scan := func(e ast.Expr, write bool) {
+		if e == nil {
+			return
+		}
+		ast.Inspect(e, func(n ast.Node) bool {
+			if _, ok := n.(*ast.FuncLit); ok {
+				return false
+			}
+			se, ok := n.(*ast.SelectorExpr)
+			if !ok {
+				return true
+			}
+			id, ok := se.X.(*ast.Ident)
+			if !ok {
+				return true
+			}
+			mu, ok := guardedBy[se.Sel.Name]
+			if !ok {
+				return true
+			}
+			w := "r"
+			if write {
+				w = "w"
+			}
+			// delete(x.f[...], k) and delete(x.f, k) write
+			k := id.Name + "." + mu + "." + w
+			if !seen[k] {
+				seen[k] = true
+				out = append(out, [3]string{id.Name, mu, w})
+			}
+			return true
+		})
+	}
+	for _, e := range exprs {
+		write := false
+		if ce, ok := e.(*ast.CallExpr); ok {
+			if fn, ok := ce.Fun.(*ast.Ident); ok && fn.Name == "delete" {
+				write = true
+			}
+		}
+		scan(e, write)
+	}
+	for _, e := range lhs {
+		// x.f = v, x.f[k] = v, x.f[k][j] = v: writes; a plain local on the left is not ours
+		scan(e, true)
+	}
+	return out
+}
+
+func touchStmts(s ast.Stmt) []ast.Stmt {
+	var out []ast.Stmt
+	for _, t := range touches(s) {
+		w := "false"
+		if t[2] == "w" {
+			w = "true"
+		}
+		out = append(out, &ast.ExprStmt{X: &ast.CallExpr{
+			Fun:  &ast.SelectorExpr{X: &ast.SelectorExpr{X: ast.NewIdent(t[0]), Sel: ast.NewIdent(t[1])}, Sel: ast.NewIdent("Touch")},
+			Args: []ast.Expr{ast.NewIdent(w), newSite(s.Pos(), "touch")},
+		}})
+	}
+	return out
+}
+
 // rewriteList instruments one statement list.
 func rewriteList(list []ast.Stmt) []ast.Stmt {
 	out := make([]ast.Stmt, 0, 2*len(list))
@@ -132,6 +297,7 @@ func rewriteList(list []ast.Stmt) []ast.Stmt {
 			// x.Go(f) of errgroup needs no announcement: the instrumented
 			// copy of errgroup announces its own go statement.
 			out = append(out, yieldStmt(s.Pos()))
+			out = append(out, touchStmts(s)...)
 		}
 		out = append(out, s)
 	}
@@ -377,6 +543,13 @@ func main() {
 					}
 				}
 				if full[fn] {
+					locksetOn = false
+					for _, lf := range strings.Split(*lockset, ",") {
+						if lf != "" && filepath.Clean(lf) == fn {
+							locksetOn = true
+							collectGuarded(f)
+						}
+					}
 					instrumentFile(f)
 				} else {
 					addImport(f, false)
